@@ -609,21 +609,46 @@ fn run_hist(ops: &str, seed: &str) -> R<String> {
             }
         }
     }
+    // a parsed query is a value: on ANY document of the batch it gives what its string gives there (what the string gives
+    // is computed first, sequentially; a memo kept inside the parsed query or keyed by an address shows up as a difference)
+    let cross: Vec<Vec<Obs>> = (0..n).map(|i| (0..n).map(|j| observe(&docs[j], &qs[i])).collect()).collect();
+    for i in 0..n {
+        if let Some(q) = &prepared[i] {
+            for k in 0..n {
+                let j = (i + k) % n;
+                if observe_prepared(&docs[j], q) != cross[i][j] {
+                    return Ok(format!("DIFF\tthe parsed query of op {} differs from its string on the document of op {}", i, j));
+                }
+            }
+            for k in (0..n).rev() {
+                let j = (i + k) % n;
+                if observe_prepared(&docs[j], q) != cross[i][j] {
+                    return Ok(format!("DIFF\tthe parsed query of op {} differs from its string on the document of op {} (second pass)", i, j));
+                }
+            }
+        }
+    }
     // many threads share each parsed query and each document
     let threads = 16usize;
     let iters = 60usize;
     let baseline = std::sync::Arc::new(baseline);
+    let cross = std::sync::Arc::new(cross);
     let prepared = std::sync::Arc::new(prepared);
     let docs = std::sync::Arc::new(docs);
     let mut handles = vec![];
     for t in 0..threads {
-        let (baseline, prepared, docs) = (baseline.clone(), prepared.clone(), docs.clone());
+        let (baseline, cross, prepared, docs) = (baseline.clone(), cross.clone(), prepared.clone(), docs.clone());
         handles.push(std::thread::spawn(move || -> Option<usize> {
             for it in 0..iters {
                 for k in 0..n {
                     let i = (k * (t + 1) + it) % n;
                     if let Some(q) = &prepared[i] {
                         if observe_prepared(&docs[i], q) != baseline[i] {
+                            return Some(i);
+                        }
+                        // the same parsed query on another document of the batch, while other threads do the same
+                        let j = (i + t + it) % n;
+                        if it % 4 == 0 && observe_prepared(&docs[j], q) != cross[i][j] {
                             return Some(i);
                         }
                     }
